@@ -69,6 +69,16 @@ def main():
             pass
     PV().trait("p").__getstate__()          # finding F3: the handler-table search for a validated Property
     gc.collect()
+    # Reentrancy.tla: callbacks that drop the references the C frame borrowed (finding F25)
+    pf = os.environ.get("VERIF_REENTRANCY_PROGRAMS")
+    if pf:
+        import json
+        from harness.drivers import reentrancy
+        for prog in json.load(open(pf)):
+            print("PROGRAM reentrancy %s" % ":".join(prog), flush=True)
+            reentrancy.run_program(*prog)
+            n += 1
+    print("PROGRAM (end)", flush=True)
     print("ASAN-PROGRAMS-DONE %d" % n)
 
 
